@@ -30,7 +30,7 @@ LEVEL_TEXT = ("Theorems over the scheduler bookkeeping for all wakeup maps and h
 LEVEL_NOTE = "Trusts: Lean kernel; hand-written bookkeeping model; whole-simulation comparison uses zero processing cost."
 ASSUMPTIONS = ["an interrupt's stamp is not later than the component's pending callback when processing cost is zero"]
 MON = ("callbacks", "tick_times", "device_order", "tick_provenance", "merged")
-CORR = ("sim",)
+CORR = ('ticks',)
 
 
 def wakeups_diff(rng, n, drv, res):
